@@ -26,6 +26,15 @@ def handleMass (op : String) (j : Json) : Option (P Json) :=
       let cs ← parseComments (← field j "comments")
       let els := loadElements massTable tol ms
       pure (Json.mkObj [("ok", Json.mkObj [("elements", strs els), ("labels", strs (loadLabels cs els))])])
+  | "load_masses" => some do
+      -- the Masses section as it stands in the file: lines (type id, mass, comment) in FILE order
+      let tol ← parseRat (← field j "tol")
+      let lines ← (← arr (← field j "lines")).mapM (fun l => do
+        let c := fieldD l "comment" Json.null
+        let cm : Option String ← if c.isNull then pure none else do pure (some (← c.getStr?))
+        pure ({ id := ← parseNat (← field l "id"), mass := ← parseRat (← field l "mass"), comment := cm } : MassLine))
+      let (els, labels) := loadMasses massTable tol lines
+      pure (Json.mkObj [("ok", Json.mkObj [("elements", strs els), ("labels", strs labels)])])
   | "guess_one_sided" => some do
       -- the historical defective scan (diagnostics only; never compared with the code)
       let m ← parseRat (← field j "mass")
